@@ -78,6 +78,10 @@ def _run(tape, clock):
         spec.op.subclass_of_decorated_base = True
         run.probe('subclass_of_decorated_base')
     within_except = tape.draw(4) == 3
+    # the host's local time is not UTC (the recording timestamp is UTC wherever the service runs)
+    clock.local_offset = tape.choice([0.0, 0.0, -5 * 3600.0, 9 * 3600.0, 5.5 * 3600.0])
+    if clock.local_offset:
+        run.probe('host_local_time_is_not_utc')
     if within_except:
         run.probe('invoked_while_handling_an_exception')
     spec.user_metadata = {'user_key': V.gen_faithful(tape, run, 1), 'n': tape.draw(5), 'flag': bool(tape.draw(2))}
@@ -119,7 +123,12 @@ def _run(tape, clock):
             spec.body = tape.choice([[], [['raise', R.D.ErrA]], [['interrupt']], [['discard']], [['discard'], ['raise', R.D.ErrB]]])
             spec.op.extractor = 'ok' if keep[1] is not None else None     # the decorator is given an extractor or not once
             spec.user_metadata = {'earlier_only': 'x', 'n': 99}
+            if getattr(spec.op, 'subclass_of_decorated_base', False) and tape.draw(2) == 1:
+                # ... made on ANOTHER class that inherits the same decorated operation
+                spec.op.run_on_sibling = True
+                run.probe('earlier_run_on_a_sibling_class')
             first = R.record_once(spec, run, cas, recorder=recorder)
+            spec.op.run_on_sibling = False
             service = first.svc
             earlier = first
             spec.body, spec.op.extractor, spec.user_metadata = keep
@@ -197,7 +206,8 @@ def _run(tape, clock):
             intr = companion(run, spec, recorder, cas, True)
             ids = set(find_matching_recording_ids(TapeRecorder(cas2), spec.op.name, RecordingLookupProperties(None)))
             expect = set([comp]) | (set([rec.rec_id]) if kind != 'interrupt' else set())
-            if earlier is not None and earlier.saved and earlier.outcome.kind != 'interrupt':
+            if earlier is not None and earlier.saved and earlier.outcome.kind != 'interrupt' and \
+                    earlier.rec_id.split('/')[0] == spec.op.name:      # (an earlier run on a sibling class belongs to that class's category)
                 expect.add(earlier.rec_id)
             if ids != expect:
                 run.violate('default_lookup_returns_complete_ones', 'lookup-%s' % ('includes-incomplete' if (ids - expect) else 'misses-complete'),
